@@ -58,20 +58,21 @@ theorem sinkOne_tree (cfg : Cfg) (ps : PS) (t : TreeImg) (q : Nat) (Xi : List (L
   have hes : insertSorted q (last.map some) = (last ++ [q]).map some := by
     rw [insertSorted_map, insNat_ge q last hs hq]
   have hkeep := filter_ne_some q last hnq
+  have hclean := all_isSome_map last
   refine ⟨p, ?_, ?_⟩
   · intro hc
-    simp [sinkOneA, hlen, hleaf, hkeep, hes, hc, treeApp]
+    simp [sinkOneA, hlen, hleaf, hclean, hkeep, hes, hc, treeApp]
   · intro hc
     cases hin : t.inode with
     | none =>
       refine ⟨(allocA (allocA ps).2.1).2.2, (allocA (allocA (allocA ps).2.1).2.1).2.2, ?_⟩
-      simp only [sinkOneA, hlen, List.getD_eq_getElem?_getD, hleaf, hkeep, Nat.lt_irrefl, List.append_nil, hes, hc, hin, List.length_map, if_false, List.length_append, List.length_singleton, treeSplit]
+      simp only [sinkOneA, hlen, List.getD_eq_getElem?_getD, hleaf, hclean, if_true, hkeep, Nat.lt_irrefl, List.append_nil, hes, hc, hin, List.length_map, if_false, List.length_append, List.length_singleton, treeSplit]
       simp only [← List.map_take, ← List.map_drop, Option.getD_none, List.nil_append, Option.isSome_none, Bool.false_eq_true, if_false]
       congr 2
       cases (last ++ [q]).drop ((last.length + 1) / 2) <;> simp
     | some seps =>
       refine ⟨(allocA (allocA ps).2.1).2.2, 0, ?_⟩
-      simp only [sinkOneA, hlen, List.getD_eq_getElem?_getD, hleaf, hkeep, Nat.lt_irrefl, List.append_nil, hes, hc, hin, List.length_map, if_false, List.length_append, List.length_singleton, treeSplit]
+      simp only [sinkOneA, hlen, List.getD_eq_getElem?_getD, hleaf, hclean, if_true, hkeep, Nat.lt_irrefl, List.append_nil, hes, hc, hin, List.length_map, if_false, List.length_append, List.length_singleton, treeSplit]
       simp only [← List.map_take, ← List.map_drop, Option.getD_some, Option.isSome_some, if_true]
       congr 3
       cases (last ++ [q]).drop ((last.length + 1) / 2) <;> simp
@@ -238,17 +239,18 @@ theorem sinkOne_eq (cfg : Cfg) (ps : PS) (t : TreeImg) (q : Nat) (Xi : List (Lis
   have hes : insertSorted q (last.map some) = (last ++ [q]).map some := by
     rw [insertSorted_map, insNat_ge q last hs hq]
   have hkeep := filter_ne_some q last hnq
+  have hclean := all_isSome_map last
   have hsep : ∀ l : List Nat, ((l.map some).headD none).getD 0 = l.headD 0 := by
     intro l; cases l <;> simp
   refine ⟨p, ?_, ?_, ?_⟩
   · intro hc
-    simp [sinkOneA, hlen, hleaf, hkeep, hes, hc, treeApp]
+    simp [sinkOneA, hlen, hleaf, hclean, hkeep, hes, hc, treeApp]
   · intro hc hin
-    simp only [sinkOneA, hlen, List.getD_eq_getElem?_getD, hleaf, hkeep, Nat.lt_irrefl, List.append_nil, hes, hc, hin, List.length_map, if_false, List.length_append,
+    simp only [sinkOneA, hlen, List.getD_eq_getElem?_getD, hleaf, hclean, if_true, hkeep, Nat.lt_irrefl, List.append_nil, hes, hc, hin, List.length_map, if_false, List.length_append,
       List.length_singleton, treeSplit]
     simp only [← List.map_take, ← List.map_drop, hsep, Option.getD_none, List.nil_append, Option.isSome_none, Bool.false_eq_true, if_false]
   · intro hc seps hin
-    simp only [sinkOneA, hlen, List.getD_eq_getElem?_getD, hleaf, hkeep, Nat.lt_irrefl, List.append_nil, hes, hc, hin, List.length_map, if_false, List.length_append,
+    simp only [sinkOneA, hlen, List.getD_eq_getElem?_getD, hleaf, hclean, if_true, hkeep, Nat.lt_irrefl, List.append_nil, hes, hc, hin, List.length_map, if_false, List.length_append,
       List.length_singleton, treeSplit]
     simp only [← List.map_take, ← List.map_drop, hsep, Option.getD_some, Option.isSome_some, if_true]
 
